@@ -265,16 +265,26 @@ def _run_ann(pid: str, tier: str, seed: int, spec: dict, scale: float = 1.0, sal
 
 PROPS["C07"] = {"theorems": ["C07_strict_tree_partial", "C07_strict_iff_partial", "union_of_variants",
                              "C07_scalar_strict", "C07_scalar_default_complete", "C07_scalar_default_sound", "C07_any",
-                             "C07_none", "C07_list_step", "derive_scalar", "defaultCoerce_typed", "strict_scalar_iff"],
-                "modules": ["KodaModel.Properties.C07", "KodaModel.Properties.C07Tree"],
-                "level_note": "C07_strict_iff_partial: for every annotation built from scalars, classes, Any, None, List[..] and "
-                              "Union[..] / Optional[..] (any nesting) and every Python value, the validator derived by the strict "
-                              "(signature) resolver terminates and accepts iff hasType; further, "
+                             "C07_none", "C07_list_step", "derive_scalar", "defaultCoerce_typed", "strict_scalar_iff", "C07_strict_tree2_partial", "C07_strict_iff2_partial", "node_utuple_plain", "node_ntuple_plain", "node_maybe", "hasTypeZip_slots",
+                             "C07_default_tree_partial", "C07_default_iff_partial", "C07_default_complete_partial",
+                             "C07_default_sound_partial", "hasType_accD", "node_scalar_dflt", "node_utuple_dflt",
+                             "node_ntuple_dflt"],
+                "modules": ["KodaModel.Properties.C07", "KodaModel.Properties.C07Tree", "KodaModel.Properties.C07Tree2", "KodaModel.Properties.C07Dflt"],
+                "level_note": "default resolver, for every annotation built from scalars, classes, Any, None, bare list / tuple, "
+                              "List[..], Tuple[T, ...], Tuple[A, B, ..], Maybe[..], Union[..] / Optional[..] (any nesting) and "
+                              "every Python value: C07_default_tree_partial (the derived validator terminates and accepts exactly "
+                              "the structural specification accD), C07_default_complete_partial (a value of the annotated type "
+                              "is accepted), C07_default_sound_partial (a Valid payload is a value of the annotated type, under "
+                              "OracleTyped: the stdlib parsers return values of their own type); strict resolver: "
+                              "C07_strict_iff2_partial: for every annotation built from scalars, classes, Any, None, bare list / "
+                              "tuple, List[..], Tuple[T, ...], Tuple[A, B, ..], Maybe[..] and Union[..] / Optional[..] (any "
+                              "nesting) and every Python value, the validator derived by the strict (signature) resolver "
+                              "terminates and accepts iff hasType; further, "
                               "for `derive` (both resolvers): scalar annotations, Any, None, arbitrary classes (sound and "
                               "complete against `hasType`, payload = the value where nothing coerces; the coercing types under "
                               "`OracleTyped`), and the List[T] step (item sound+complete => list sound+complete, every fuel); "
-                              "dict / set / tuple / Literal / record / Maybe / Annotated forms and the glue over nested annotations "
-                              "are decided by the correspondence stream and the model-free isinstance-style oracle only",
+                              "dict / set / Literal / record / Annotated forms, and 'payload equal to x where nothing coerces' "
+                              "for containers, are decided by the correspondence stream and the model-free isinstance-style oracle only",
                 "run": _run_ann,
                 "rule": "annotations generated from the supported grammar to depth 3 (generated dataclass / NamedTuple / "
                         "TypedDict classes with random fields, defaults, totality) x 6 (quick) / 12 (thorough) values each: "
@@ -319,12 +329,17 @@ PROPS["C08"] = {"theorems": ["C08_body_iff", "C08_invalid_args", "C08_all_pass",
                               "is not modelled: the stream generates legal calls and compares slot assignment, body-ran, "
                               "error keys and delivered values with the real decorator"}
 PROPS["C09"] = {"theorems": ["C08_all_pass", "C09_unchecked_untouched", "C09_checked_payload", "C09_transparent_return",
-                             "slot_pass_iff", "C08_body_exception"],
-                "modules": ["KodaModel.Properties.C08"],
+                             "slot_pass_iff", "C08_body_exception", "C07_strict_iff2_partial", "C07_strict_tree2_partial",
+                             "C07_strict_iff_partial", "C07_scalar_strict"],
+                "modules": ["KodaModel.Properties.C08", "KodaModel.Properties.C07Tree", "KodaModel.Properties.C07Tree2"],
                 "level_note": "delivery and return transparency are proved for `wrapCall`; strictness of the default "
-                              "signature resolution (nothing is coerced) is decided by correspondence + oracle only (the "
-                              "annotation stream under the signature resolver), not by a theorem; name / docstring / "
-                              "coroutine-ness are checked on the real decorator only",
+                              "signature resolution (nothing is coerced: accepted iff the value already is of the "
+                              "annotated type) is proved for the annotation forms of `annFrag2` - scalars, classes, Any, None, bare list / "
+                              "tuple, List, Tuple[T, ...], Tuple[A, B, ...], Maybe, Union / Optional, any nesting "
+                              "(C07_strict_iff2_partial) "
+                              "and decided by correspondence + oracle for the remaining forms (the annotation stream "
+                              "under the signature resolver); name / docstring / coroutine-ness are checked on the real "
+                              "decorator only",
                 "run": _run_sig, "replay": _replay_sig, "rule": _SIG_RULE +
                 "; strictness: the C07 annotation grammar under the signature resolver x conforming values and look-alikes"}
 
